@@ -650,6 +650,77 @@ def run(repo, rep, tier):
                                     f"{sorted({x[0] for x in forms[major]})} use `{major[:80]}`: for a boundary within rounding of an edge the "
                                     f"accessors disagree on the number of bins (edges, centres and entries no longer line up)",
                                     stmt=f"{an}: correction predicate differs")
+    grid_fns_all = [f for f, _ in two_d]
+    for fnm in ("prepare2Dsparse", "prepare_2dgrid"):
+        if fnm in hn.functions:
+            grid_fns_all.append(hn.functions[fnm])
+    for m0 in (inlined_repo.modules.get("histogrammar.plot.matplotlib"),):
+        for k0 in m0.classes.values():
+            if "TwoDimensionally" in k0.name:
+                for fnm in ("x_lim", "y_lim"):
+                    if fnm in k0.methods and k0.methods[fnm] not in grid_fns_all:
+                        grid_fns_all.append(k0.methods[fnm])
+    # ---------------- R13.13: the four accessors agree on when a query lies outside the binned domain (empty result)
+    r13 = rep.rule("R13.13", "num_bins / bin_entries / bin_edges / bin_centers return an empty result for the same out-of-domain queries", floor=3)
+    for c in prims:
+        if c.name not in BINNED:
+            continue
+        ic = inlined_repo.cls(c.name)
+        empties = {}     # accessor -> frozenset of guard texts that lead to an empty result
+        fns = {}
+        for an in ACCESSORS:
+            a = inlined_repo.lookup(ic, an)
+            if not isinstance(a, FuncInfo):
+                continue
+            fns[an] = a
+            guards = set()
+            for st in walk_local_stmt(a.node):
+                if isinstance(st, ast.If):
+                    for b in st.body:
+                        if isinstance(b, ast.Return) and b.value is not None:
+                            v = b.value
+                            empty = (isinstance(v, ast.Constant) and v.value == 0) or (isinstance(v, ast.Call) and v.args and isinstance(v.args[0], (ast.List, ast.Tuple))
+                                                                                        and not v.args[0].elts and ast.unparse(v.func).endswith("array"))
+                            if empty:
+                                guards.add(demangle(ast.unparse(st.test)).replace(" ", ""))
+            if guards:
+                empties[an] = frozenset(guards)
+        if len(empties) >= 2:
+            major = max(set(empties.values()), key=lambda gset: sum(1 for v in empties.values() if v == gset))
+            for an, gset in empties.items():
+                ok = gset == major
+                r13.ob(ok, f"{c.name}.{an}: empty-result guards {sorted(gset)}")
+                if not ok:
+                    diff = sorted(gset ^ major)
+                    rep.finding("R13.13", fns[an], fns[an].node, f"{c.name}.{an} returns an empty result under {sorted(gset - major) or sorted(gset)} while its sibling "
+                                f"accessors do so under {sorted(major - gset) or sorted(major)}: for a query that overlaps the binned domain on one side "
+                                f"this view is empty while the others report bins, so edges, centres and entries no longer line up",
+                                stmt=f"{an}: out-of-domain guard differs ({diff[0][:50]})")
+    # ---------------- R13.14: an edge `index * width + origin` takes width and origin from the same axis
+    r14 = rep.rule("R13.14", "affine edge expressions of the 2-D views combine the bin width and the origin of one and the same histogram", floor=4)
+    for f in grid_fns_all:
+        defs = {}
+        for st in walk_local_stmt(f.node):
+            if isinstance(st, ast.Assign) and len(st.targets) == 1 and isinstance(st.targets[0], ast.Name):
+                defs.setdefault(st.targets[0].id, []).append(st.value)
+        for n in walk_local_stmt(f.node):
+            if isinstance(n, ast.BinOp) and isinstance(n.op, (ast.Add, ast.Sub)) and not isinstance(getattr(n, "_parent", None), ast.BinOp):
+                owners_w, owners_o = set(), set()
+                for x in ast.walk(n):
+                    if isinstance(x, ast.Attribute) and x.attr in ("binWidth", "origin"):
+                        (owners_w if x.attr == "binWidth" else owners_o).add(ast.unparse(x.value))
+                    if isinstance(x, ast.Name) and len(defs.get(x.id, [])) == 1:
+                        for y in ast.walk(defs[x.id][0]):
+                            if isinstance(y, ast.Attribute) and y.attr in ("binWidth", "origin"):
+                                (owners_w if y.attr == "binWidth" else owners_o).add(ast.unparse(y.value))
+                if owners_w and owners_o:
+                    ok = owners_w == owners_o
+                    r14.ob(ok, f"{f.qualname}: `{ast.unparse(n)[:60]}`")
+                    if not ok:
+                        rep.finding("R13.14", f, n, f"`{ast.unparse(n)[:80]}` combines the bin width of `{sorted(owners_w)[0]}` with the origin of "
+                                    f"`{sorted(owners_o)[0]}`: the edges of one axis are shifted by the other axis' origin, so the reported ranges no "
+                                    f"longer contain the data filled into the corresponding cells (whenever the two origins differ)",
+                                    stmt=f"edge mixes width and origin of different axes")
     # ---------------- R13.11: cells of a 2-D grid are addressed by dense positions
     r11 = rep.rule("R13.11", "grid cells are addressed by positions of a dense index range (or by lookup in the axis' key list), never by the rank among filled bins", floor=8)
     grid_fns = [f for f, _ in two_d]
